@@ -164,7 +164,7 @@ def run_le(case):
                     break
                 cx.advertising[d] = (own, ADV_PAYLOADS[ai], RSP_PAYLOADS[ri])
                 for s in cx.scanning:  # a new advertising epoch: reports of an earlier one do not count
-                    sim.loop.settle()
+                    sim.loop.settle(vt_budget=1.0)
                     cx.adverts[s] = [x for x in cx.adverts[s] if not _same(x.address, cx.addr(d, own))]
                 sim.loop.advance(0.065)
                 _check_adverts(cx, d, mode(d))
@@ -184,7 +184,7 @@ def run_le(case):
             elif kind == 'scan_stop':
                 st, t = sim.run(world[op[1]].device.stop_scanning(legacy=True), 10.0)
                 cx.scanning.pop(op[1], None)
-                sim.loop.settle()
+                sim.loop.settle(vt_budget=1.0)
             elif kind == 'connect':
                 _, a, b, own, bown = op
                 ok = _connect(cx, a, b, own, bown, f'{mode(b)}:central={own}:peripheral={bown}')
@@ -274,7 +274,7 @@ def _connect(cx, a, b, own, bown, facts):
         sim.violation_once('connect', f'connect-failed:{facts}:{type(t.exception()).__name__}', f'connect(N{a}->N{b}) raised {t.exception()!r}')
         return False
     conn = t.result()
-    sim.loop.settle()
+    sim.loop.settle(vt_budget=1.0)
     sim.loop.advance(0.01)
     return _check_pair(cx, a, b, own, bown, conn, facts)
 
@@ -331,7 +331,7 @@ def _send(cx, a, b, side, count, size):
         p = cx.counter.to_bytes(4, 'big') + bytes((cx.counter + i) & 0xFF for i in range(size))
         sent.append(p)
         world[src_node].host.send_l2cap_pdu(src.handle, TEST_CID, p)
-    sim.loop.settle()
+    sim.loop.settle(vt_budget=1.0)
     own_c = 'public' if src.self_address.address_type == 0 else 'random'
     role = 'central' if side == 0 else 'peripheral'
     facts = f'sender={role}:sender_addr={own_c}'
@@ -370,7 +370,7 @@ def _disconnect(cx, a, b, side, both):
         for t in tasks:
             t.cancel()
         return False
-    sim.loop.settle()
+    sim.loop.settle(vt_budget=1.0)
     sim.loop.advance(0.01)
     ok = True
     for i in (0, 1):
@@ -418,7 +418,7 @@ def _cross(cx, op, mode):
         for t in (t_ab, t_ca, t_adv):
             t.cancel()
         return False
-    sim.loop.settle()
+    sim.loop.settle(vt_budget=1.0)
     sim.loop.advance(0.01)
     for nm, t in (('outgoing', t_ab), ('incoming', t_ca)):
         if t.exception() is not None:
@@ -448,7 +448,7 @@ def _race(cx, op, mode):
         t1.cancel()
         t2.cancel()
         return
-    sim.loop.settle()
+    sim.loop.settle(vt_budget=1.0)
     sim.loop.advance(0.01)
     winners = [t for t in (t1, t2) if t.exception() is None]
     p_events = [x for x in cx.conn_events[b] if x.role == 1]
@@ -468,7 +468,7 @@ def _connect_absent(cx, a):
         sim.violation_once('absent', 'connect-absent-hang', f'connect to a silent address with timeout never returned: {describe_task(t)}')
         t.cancel()
         return False
-    sim.loop.settle()
+    sim.loop.settle(vt_budget=1.0)
     if t.exception() is None:
         sim.violation_once('absent', 'connect-absent-succeeded', f'connect to a silent address returned {t.result()}')
         return False
@@ -541,7 +541,7 @@ def run_classic(case):
                 if t.exception() is not None:
                     sim.violation_once('connect', f'connect-failed:classic:{type(t.exception()).__name__}', repr(t.exception()))
                     break
-                sim.loop.settle()
+                sim.loop.settle(vt_budget=1.0)
                 sim.loop.advance(0.01)
                 conn = t.result()
                 if not bytes(conn.peer_address) == bytes(world[b].device.public_address):
